@@ -87,11 +87,15 @@ class Heap:
         self.arrs = {}
         self.havocs = []        # [(ref term, serial)] objects whose every attribute was havocked
         self.namer = namer
+        self.ghost = {}         # ghost variables: name -> Val / Seq term
+        self.on_new_array = None
 
     def copy(self):
         h = Heap(self.namer)
         h.arrs = dict(self.arrs)
         h.havocs = list(self.havocs)
+        h.ghost = dict(self.ghost)
+        h.on_new_array = self.on_new_array
         return h
 
     @staticmethod
@@ -109,6 +113,8 @@ class Heap:
             return self.arrs[key]
         name = key if isinstance(key, str) else '%s_%s' % key
         arr = z3.Const('H0_' + name, self.sort_of(key))
+        if self.on_new_array is not None:
+            self.on_new_array(key, arr)
         if isinstance(key, tuple) and key[0] == 'attr':
             for ref, serial in self.havocs:
                 arr = z3.Store(arr, ref, z3.Const('hv%d_%s' % (serial, name), Val))
@@ -207,6 +213,33 @@ class State:
         self.ghost = {}
         self.notes = []
         self.solver_calls = 0
+        self._h0_seen = set()
+        self.heap.on_new_array = self._initial_heap_axiom
+
+    def _initial_heap_axiom(self, key, arr):
+        """every reference stored in the initial heap points to an object that already exists"""
+        name = str(arr)
+        if name in self._h0_seen:
+            return
+        self._h0_seen.add(name)
+        r = z3.Int('h0_r')
+        a0 = self.alloc0
+        if key in ('cls', 'dkeys'):
+            return
+        if key == 'list':
+            k = z3.Int('h0_k')
+            e = z3.Select(arr, r)[k]
+            self.axioms.append(z3.ForAll([r, k], z3.Implies(z3.And(k >= 0, k < z3.Length(z3.Select(arr, r)), Val.is_o(e)),
+                                                            z3.And(Val.ref(e) < a0, Val.ref(e) >= 0)), patterns=[e]))
+        elif key == 'dmap':
+            kk = z3.Const('h0_key', Val)
+            e = z3.Select(z3.Select(arr, r), kk)
+            self.axioms.append(z3.ForAll([r, kk], z3.Implies(Val.is_o(e), z3.And(Val.ref(e) < a0, Val.ref(e) >= 0)),
+                                         patterns=[e]))
+        else:
+            e = z3.Select(arr, r)
+            self.axioms.append(z3.ForAll([r], z3.Implies(Val.is_o(e), z3.And(Val.ref(e) < a0, Val.ref(e) >= 0)),
+                                         patterns=[e]))
 
     # -- naming ------------------------------------------------------------
     def fresh_name(self, base):
